@@ -57,6 +57,13 @@ TEXT_ADAPTERS = [
 ]
 
 
+def other_screens(mode):
+    """SCREEN numbers of the same adapter other than `mode` (graphics modes of the table, then 0 = text)."""
+    prefix = mode['label'].split(':')[0]
+    nrs = [m['screen'] for m in GRAPHICS_MODES if m['label'].split(':')[0] == prefix and m['screen'] != mode['screen']]
+    return nrs + [0]
+
+
 def mode_cost(m):
     """Relative cost of a mode (pixels per page): used to balance shards."""
     return m['w'] * m['h']
@@ -182,6 +189,19 @@ class GBox(object):
                 m['label'], len(px[0]), len(px), self.w, self.h))
         self.validate_fast(px)
         return px
+
+    def round_trip(self, other, apage, vpage):
+        """
+        History "mode change that keeps page numbers": SCREEN other,,a,v then SCREEN m,,a,v, the pages
+        named in both statements (so the active page afterwards is `apage` by the statements' own words).
+        Every page is erased by the mode change.  -> False if the other mode refused those pages
+        (then SCREEN m,,a,v alone was executed).
+        """
+        self.box.ex(b'VIEW:WINDOW')
+        out = self.box.ex(b'SCREEN %d,,%d,%d' % (other, apage, vpage))
+        code, _ = harness.err_of(out)
+        self.enter_mode(apage, vpage)
+        return not code
 
     def validate_fast(self, px=None):
         """Cross-check the fast snapshot path against the public accessors."""
